@@ -114,11 +114,14 @@ struct RunCfg
     int       filter;       // 0: connection filter off (scan filter on), list { W }; 1: connection filter on, list { W }; 2: on, list { W, P }
     int       target;       // directed: 0 = P public, 1 = P random, 2 = P random set, then cleared while the advertisement is pending,
                             //           3 = never set (the link layer must not advertise at all)
-    adv_kind  kind;
+    adv_kind  kind;         // advertising type selected before run(): the type of the PDU that is on air when the answer arrives
+    int       switch_to;    // multi-type advertiser: -1 or the type selected by change_advertising<>() *after* the PDU was scheduled and
+                            // before the answer arrives (documented to take effect with the next advertising PDU only)
 
     std::string name() const
     {
-        return mc::fmt( "type=%s own=%s filter=%d target=%d", kind_name[ kind ], own_public ? "public" : "random", filter, target );
+        return mc::fmt( "type=%s own=%s filter=%d target=%d", kind_name[ kind ], own_public ? "public" : "random", filter, target )
+             + ( switch_to >= 0 ? mc::fmt( " then-change_advertising<%s>", kind_name[ switch_to ] ) : std::string() );
     }
 };
 
@@ -145,6 +148,8 @@ struct World
     RunCfg             rc;
     std::uint8_t       own[ 6 ]; bool own_random;
     bool               advertising_expected;      // false: directed advertising without a target never advertises
+    adv_kind           air_kind;                  // advertising type of the PDU handed to the radio, read from its PDU type
+    bool               air_kind_known;
     std::uint8_t*      rx[ 37 ];                  // exact size heap blocks, one per reported size
 
     World() { for ( unsigned n = 0; n != 37; ++n ) rx[ n ] = n ? new std::uint8_t[ n ] : nullptr; }
@@ -167,6 +172,7 @@ struct World
         if ( !cfg::multi && r.kind != cfg::kind ) return false;
         if ( r.kind != directed && r.target != 0 ) return false;
         if ( !cfg::has_list && r.filter != 0 ) return false;
+        if ( r.switch_to >= 0 && ( !cfg::multi || r.switch_to == int( r.kind ) || r.target != 0 ) ) return false;
 
         dut.construct();
         memset( &callbacks, 0, sizeof callbacks );
@@ -186,10 +192,31 @@ struct World
             if ( r.kind == scannable ) select_type< bll::scannable_undirected_advertising >( l, 0 );
             if ( r.kind == nonconn )   select_type< bll::non_connectable_undirected_advertising >( l, 0 );
         }
-        if ( r.kind == directed && r.target != 3 ) set_target( l, peer(), 0 );
+        if ( ( r.kind == directed && r.target != 3 ) || r.switch_to == int( directed ) ) set_target( l, peer(), 0 );
 
         l.run();
         advertising_expected = l.log.adv_count == 1;
+
+        // the advertising type that decides about requests is the one of the PDU that is on air
+        air_kind = r.kind; air_kind_known = true;
+        if ( advertising_expected )
+        {
+            switch ( l.log.adv_data[ 0 ] & 0x0f )
+            {
+            case 0:  air_kind = undirected; break;
+            case 1:  air_kind = directed;   break;
+            case 6:  air_kind = scannable;  break;
+            case 2:  air_kind = nonconn;    break;
+            default: air_kind_known = false;
+            }
+        }
+        if ( cfg::multi && r.switch_to >= 0 )
+        {
+            if ( r.switch_to == int( undirected ) ) select_type< bll::connectable_undirected_advertising >( l, 0 );
+            if ( r.switch_to == int( directed ) )   select_type< bll::connectable_directed_advertising >( l, 0 );
+            if ( r.switch_to == int( scannable ) )  select_type< bll::scannable_undirected_advertising >( l, 0 );
+            if ( r.switch_to == int( nonconn ) )    select_type< bll::non_connectable_undirected_advertising >( l, 0 );
+        }
         if ( r.kind == directed && r.target == 2 ) set_target( l, device_address(), 0 );   // target withdrawn, PDU still in the radio
 
         l.log.adv_count = 0; l.log.access_count = 0;
@@ -212,15 +239,17 @@ struct World
     }
 
     // "" = the reference accepts the request as a connection request, otherwise the first reason to ignore it
-    const char* reference( const Pdu& p ) const
+    const char* reference( const Pdu& p ) const { return reference( p, air_kind ); }
+
+    const char* reference( const Pdu& p, adv_kind kind ) const
     {
         if ( p.type != 5 )                                   return "wrong-pdu-type";
         if ( p.len_field != 34 )                             return "wrong-length-field";
         if ( p.size() != 36 )                                return "wrong-size";
         if ( p.adva != 0 )                                   return "adva-mismatch";
         if ( ( p.rxadd != 0 ) != own_random )                return "rxadd-is-not-own-address-type";
-        if ( rc.kind == scannable || rc.kind == nonconn )    return "advertising-type-not-connectable";
-        if ( rc.kind == directed )
+        if ( kind == scannable || kind == nonconn )          return "advertising-type-not-connectable";
+        if ( kind == directed )
         {
             if ( rc.target == 2 )                            return "no-directed-target";
             if ( p.inita != 2 )                              return "inita-is-not-the-directed-target";
@@ -265,10 +294,17 @@ struct World
             res.fails.push_back( { "memory:" + crash + ( n < 36 ? ":short-pdu" : ":full-size-pdu" ), "adv_received() " + crash + " for " + p.text() } );
             return res;
         }
+        // the application selected another advertising type while the PDU was on air and the link layer decided as if
+        // that type had been transmitted: one mechanism, own signatures
+        const bool by_later_type = rc.switch_to >= 0 && entered != expect && ( reference( p, adv_kind( rc.switch_to ) )[ 0 ] == 0 ) == entered;
         if ( entered && !expect )
-            res.fails.push_back( { mc::fmt( "connect:entered-but-reference-rejects:%s", why ), "connection entered for " + p.text() + " [" + rc.name() + "] " + res.obs() } );
+            res.fails.push_back( { by_later_type ? std::string( "connect:entered-for-pdu-on-air:decided-by-type-selected-afterwards" )
+                                                 : mc::fmt( "connect:entered-but-reference-rejects:%s", why ),
+                                   "connection entered for " + p.text() + " [" + rc.name() + "] " + res.obs() } );
         else if ( !entered && expect )
-            res.fails.push_back( { mc::fmt( "connect:valid-request-ignored:%s:filter-%s", kind_name[ rc.kind ], rc.filter ? "on" : "off" ), "no connection for " + p.text() + " [" + rc.name() + "] " + res.obs() } );
+            res.fails.push_back( { by_later_type ? std::string( "connect:valid-request-ignored:decided-by-type-selected-afterwards" )
+                                                 : mc::fmt( "connect:valid-request-ignored:%s:filter-%s", kind_name[ air_kind ], rc.filter ? "on" : "off" ),
+                                   "no connection for " + p.text() + " [" + rc.name() + "] " + res.obs() } );
         else if ( entered )
         {
             if ( callbacks.requested != 1 || l.log.ce_count != 1 || l.log.access_count != 1 )
@@ -293,7 +329,8 @@ struct World
 
     std::string cls( const Result& r ) const
     {
-        return mc::fmt( "%s own-%s filter%d: %s", kind_name[ rc.kind ], own_random ? "random" : "public", rc.filter, r.why[ 0 ] ? r.why : "connect" );
+        return mc::fmt( "%s%s own-%s filter%d: %s", kind_name[ air_kind ], rc.switch_to >= 0 ? mc::fmt( "->%s", kind_name[ rc.switch_to ] ).c_str() : "",
+                        own_random ? "random" : "public", rc.filter, r.why[ 0 ] ? r.why : "connect" );
     }
 };
 
@@ -306,13 +343,19 @@ std::vector< RunCfg > run_cfgs()
         for ( int own_public = 0; own_public != 2; ++own_public )
             for ( int filter = 0; filter != 3; ++filter )
                 for ( int target = 0; target != 4; ++target )
-                    r.push_back( RunCfg{ own_public != 0, filter, target, adv_kind( kind ) } );
+                    r.push_back( RunCfg{ own_public != 0, filter, target, adv_kind( kind ), -1 } );
+    // multi-type advertiser: every ordered pair ( type on air, type selected afterwards )
+    for ( int kind = 0; kind != 4; ++kind )
+        for ( int later = 0; later != 4; ++later )
+            for ( int own_public = 0; own_public != 2; ++own_public )
+                for ( int filter = 0; filter != 2; ++filter )
+                    r.push_back( RunCfg{ own_public != 0, filter, 0, adv_kind( kind ), later } );
     return r;
 }
 
 std::string step_line( const RunCfg& rc, const Pdu& p )
 {
-    return mc::fmt( "kind=%d own_public=%d filter=%d target=%d | ", int( rc.kind ), int( rc.own_public ), rc.filter, rc.target ) + p.text();
+    return mc::fmt( "kind=%d own_public=%d filter=%d target=%d switch_to=%d | ", int( rc.kind ), int( rc.own_public ), rc.filter, rc.target, rc.switch_to ) + p.text();
 }
 
 int replay( const mc::Args& a )
@@ -322,13 +365,14 @@ int replay( const mc::Args& a )
     for ( auto& s : rf.steps )
     {
         int kind, own_public; RunCfg rc; Pdu p;
-        if ( sscanf( s.c_str(), "kind=%d own_public=%d filter=%d target=%d | type=%u flags=%u len=%u sizemode=%u adva=%u rxadd=%u txadd=%u inita=%u",
-                     &kind, &own_public, &rc.filter, &rc.target, &p.type, &p.flags, &p.len_field, &p.size_mode, &p.adva, &p.rxadd, &p.txadd, &p.inita ) != 12 )
+        if ( sscanf( s.c_str(), "kind=%d own_public=%d filter=%d target=%d switch_to=%d | type=%u flags=%u len=%u sizemode=%u adva=%u rxadd=%u txadd=%u inita=%u",
+                     &kind, &own_public, &rc.filter, &rc.target, &rc.switch_to, &p.type, &p.flags, &p.len_field, &p.size_mode, &p.adva, &p.rxadd, &p.txadd, &p.inita ) != 13 )
         { printf( "cannot parse step: %s\n", s.c_str() ); return 2; }
         rc.kind = adv_kind( kind ); rc.own_public = own_public != 0;
         if ( !world.prepare( rc ) ) { printf( "configuration %s does not exist in this unit\n", rc.name().c_str() ); return 2; }
         std::uint8_t pdu[ 40 ]; world.build( p, pdu );
-        printf( "configuration: %s, own address %s (%s)\n", rc.name().c_str(), mc::hex( world.own, 6 ).c_str(), world.own_random ? "random" : "public" );
+        printf( "configuration: %s, own address %s (%s), advertising PDU on air: %s\n", rc.name().c_str(), mc::hex( world.own, 6 ).c_str(), world.own_random ? "random" : "public",
+                mc::hex( world.dut->log.adv_data, 8 ).c_str() );
         printf( "received PDU (%u of 36 octets reported): %s\n", p.size(), mc::hex( pdu, 36 ).c_str() );
         auto res = world.evaluate( p );
         const char* why = world.reference( p );
@@ -352,12 +396,21 @@ int main( int argc, char** argv )
     rep.unit = a.opt.count( "unit" ) ? a.opt[ "unit" ] : mc::fmt( "C25_connect_ll-cfg%d", C25_CFG );
     if ( !a.replay.empty() ) return replay( a );
 
+    // --part base | switch splits the run-time configurations of the multi-type advertiser over two executables
+    const std::string part = a.opt.count( "part" ) ? a.opt[ "part" ] : std::string();
     std::uint64_t accepted = 0, configs = 0;
     bool cut = false;
     for ( const RunCfg& rc : run_cfgs() )
     {
+        if ( part == "base" && rc.switch_to >= 0 ) continue;
+        if ( part == "switch" && rc.switch_to < 0 ) continue;
         if ( !world.prepare( rc ) ) continue;
         ++configs;
+        if ( world.advertising_expected && ( !world.air_kind_known || world.air_kind != rc.kind ) )
+        {
+            rep.fail( "advertising-type:pdu-on-air-is-not-the-selected-type", rc.name() + mc::fmt( ": PDU type %u transmitted", unsigned( world.dut->log.adv_data[ 0 ] & 0x0f ) ), { step_line( rc, Pdu{} ) } );
+            continue;
+        }
         if ( world.advertising_expected != world.expect_advertising() )
         {
             rep.fail( world.advertising_expected ? "directed:advertising-without-target" : "setup:not-advertising", rc.name(), { step_line( rc, Pdu{} ) } );
